@@ -105,6 +105,67 @@ def gen_program(rng, kind, nthreads, ncalls):
     return dict(cfg=cfg, pre=pre, thr=thr, post=post)
 
 
+def call_on(kind, op, rng):
+    """the method `op` addressed to key 1 (range forms: keys 1 and 2 / 3 and 1)"""
+    d = 50 if kind == "tlru" else 0
+    v = 1 if kind == "utset" else rng.randint(1, 9)
+    p = rng.choice([0, 1]) if kind in vlib.PEEK_KINDS else 0
+    ks = rng.choice([[1, 2], [3, 1], [1, 1]])
+    if op == "ins":
+        return "ins 1 %d %d %d" % (v, rng.choice([3, 1, 2]), d)
+    if op == "insr":
+        return "insr %d 0 2 %s" % (rng.choice([3, 1, 2]), " ".join("%d %d %d" % (k, v, d) for k in ks))
+    if op == "era":
+        return "era 1"
+    if op == "erar":
+        return "erar 0 2 %d %d" % (ks[0], ks[1])
+    if op in ("find", "findc"):
+        return "%s 1 %d" % (op, p)
+    if op in ("findr", "findf"):
+        return "%s %d 0 2 %d %d" % (op, p, ks[0], ks[1])
+    if op == "uttl":
+        return "uttl %d" % rng.choice([5, 50])
+    return op
+
+
+def systematic_programs(rng, kinds, fraction):
+    """Every unordered pair of public methods of a container, both addressed to the same key, from
+    every kind of starting state: key absent / live / in a full cache / expired and not yet removed /
+    expired in a full cache.  One call per thread."""
+    out = []
+    for kind in kinds:
+        m = METHODS[kind]
+        ut = kind in ("utmap", "utset")
+        cap = 0 if ut else 2
+        ttl = 5 if kind in ("utlru", "utmap", "utset") else 0
+        live = "ins 1 %d 3 %d" % (1 if kind == "utset" else 7, 50 if kind == "tlru" else 0)
+        other = "ins 2 %d 3 %d" % (1 if kind == "utset" else 8, 50 if kind == "tlru" else 0)
+        short = "ins 1 %d 3 %d" % (1 if kind == "utset" else 7, 2)       # tlru: 2 ms
+        pres = [[], [live]]
+        if not ut:
+            pres.append([live, other])
+        if kind in vlib.TTL_KINDS:
+            if kind == "tlru":
+                pres.append([short, "tick 9"])
+                pres.append([short, other, "tick 9"])
+            else:
+                pres.append([live, "tick %d" % (4 * ttl + 1)])
+                if not ut:
+                    pres.append([live, "tick %d" % (4 * ttl - 2), other, "tick 3"])
+        post = ["tick 19", "obs", "tick 1", "obs", "tick 179", "obs", "tick 1", "obs"] if kind in vlib.TTL_KINDS else \
+               (["tick 9", "age", "obs"] if kind == "lfuda" else [])
+        for i, a in enumerate(m):
+            for b in m[i:]:
+                for pre in pres:
+                    if rng.random() > fraction:
+                        continue
+                    cfg = dict(kind=kind, cap=cap, ts=1, mlf=100, ttl=ttl, tick=2, rnum=1, rsh=1, fl=rng.choice([0, 0, 1]),
+                               keys=3)
+                    out.append(dict(cfg=cfg, pre=list(pre), thr=[[call_on(kind, a, rng)], [call_on(kind, b, rng)]],
+                                    post=post))
+    return out
+
+
 def interleavings(seqs):
     """all merges of the per-thread step sequences (order within a thread preserved)"""
     if all(not s for s in seqs):
@@ -372,6 +433,10 @@ def check_c06(tier):
         prog = gen_program(rng, kind, *shape)
         lim = 70 if shape == (2, 1) else (24 if tier == "quick" else 60)
         for s in schedules_for(rng, prog, lim):
+            cases.append((prog, s))
+    # every pair of methods on the same key from every kind of starting state
+    for prog in systematic_programs(rng, KINDS, 0.25 if tier == "quick" else 1.0):
+        for s in schedules_for(rng, prog, 20, grants=2):
             cases.append((prog, s))
     # schedules enumerated by TLC for the model's own programs
     cases += concmc.model_cases(mc, rng)
